@@ -7,4 +7,5 @@ INIT Init
 NEXT Next
 INVARIANT Composite
 INVARIANT DefOK
+INVARIANT GadgetIsPhase
 CHECK_DEADLOCK FALSE
